@@ -653,6 +653,14 @@ def streamPileupHist (edges : List Int) (sizes : List Nat) (cs : List (List C10.
     | some r => .ok r
     | none => .error .stop
 
+/-- `compute(streamed.get_location('start').get_windows(flank= | window_size=))`: per chromosome buffer, the window
+around every entry's start (`C10.flanks`: `flank=k` gives k before and k + 1 from the position on, `window_size=w`
+gives w / 2 before and w / 2 + w % 2 from it on - for even AND odd w), clipped to the chromosome (`C10.windowG`);
+the buffers' windows concatenated in genome order -/
+def streamWindows (sizes : List Nat) (flank : Option Nat) (wsize : Nat) (cs : List (List C10.Iv)) : Option (List C10.IvZ) :=
+  (chromBuffers sizes.length cs).map (fun bufs =>
+    (bufs.map (fun b => b.map (fun iv : C10.Iv => C10.windowG sizes (C10.flanks flank wsize) iv.c iv.s true))).flatten)
+
 /-- `compute(streamed_pileup[peaks])`: per chromosome, the slices of that chromosome's array under
 that chromosome's peaks (`extract_intervals` over `peaks.as_stream()`), concatenated in genome order;
 with `stranded`, every row whose strand is not `+` (so `-` and `.`) is reversed -/
